@@ -54,7 +54,7 @@ int main(int argc, char ** argv) {
   myth_globalattr_t ga; myth_globalattr_init(&ga); myth_globalattr_set_n_workers(&ga, W);
   myth_init_ex(&ga);
   ctl_init(W);
-  for (int i = 0; i < NM; i++) { myth_mutex_init(&mx[i], 0); ctl_name_obj_kind(&mx[i], i + 1, "mutex"); }
+  for (int i = 0; i < NM; i++) { memset(&mx[i], 0x5a, sizeof mx[i]); myth_mutex_init(&mx[i], 0); ctl_name_obj_kind(&mx[i], i + 1, "mutex"); }
   ctl_name_thread(0);
   ctl_activate();
   myth_thread_t th[MAXK];
